@@ -18,7 +18,7 @@ ASSUMPTIONS = [
     "histories only target real (non-virtual) lines; placeholders arise only from forward references",
     "identifier pools are type-segregated: an undefined identifier is mentioned only where a record of its pool's type may stand",
     "placeholder and specified overlaps are never mixed on one oriented end pair (also across paths)",
-    "group nesting is a DAG; group item editing (append_item...) is not exercised",
+    "group nesting is a DAG; the item-editing methods of groups (outside the statement's list of mutations) are exercised in part gfa2-groups only, since they were repaired (D87)",
     "renames go to unused identifiers (collisions are C09)",
 ]
 
@@ -67,11 +67,11 @@ def prop(case):
     return labels
 
 
-def st_case(version, group_bias=0.0):
+def st_case(version, group_bias=0.0, p_item=0.0):
     @st.composite
     def s(draw):
         r = draw(st.randoms(use_true_random=False))
-        h = H.gen_history(r, version, {"p_rm": 0.25, "p_rename": 0.1, "group_bias": group_bias, "p_readd": 0.07, "circular_first": 0.15})
+        h = H.gen_history(r, version, {"p_rm": 0.25, "p_rename": 0.1, "group_bias": group_bias, "p_readd": 0.07, "circular_first": 0.15, "p_item": p_item})
         h["vlevel"] = gen.choice(r, [0, 1, 1, 2, 3])
         return h
     return s()
@@ -81,5 +81,6 @@ def parts(tier):
     n = 150 if tier == "quick" else 700
     return [Part("gfa1", prop, strategy=st_case("gfa1"), n=n, quick_shards=2),
             Part("gfa2", prop, strategy=st_case("gfa2"), n=n, quick_shards=2),
-            Part("gfa2-groups", prop, strategy=st_case("gfa2", 0.5), n=n, quick_shards=2,
-                 note="half of the added records are O/U lines, 30% of them further lines of an existing group")]
+            Part("gfa2-groups", prop, strategy=st_case("gfa2", 0.5, 0.12), n=n, quick_shards=2,
+                 note="half of the added records are O/U lines, 30% of them further lines of an existing group; 12% of the "
+                      "steps edit the item list of a group through add_item / rm_item / append_item / prepend_item / rm_first_item / rm_last_item")]
